@@ -32,8 +32,8 @@ TOLERANCES = {
 }
 ASSUMPTIONS = ["axis orientation table of vf/oracles/coords.py (pinned by the baseline tests)"]
 FLOORS = {
-    "quick": {"contract:coordinate": 5000, "contract:voxel": 5000, "inverse_exact": 100000, "typed_roundtrip": 2000, "voxel0_is_origin_after_origin_change": 100, "sibling_images": 300, "callers_containers_overwritten": 100, "integer_index_types_agree": 2000},
-    "thorough": {"contract:coordinate": 50000, "contract:voxel": 50000, "inverse_exact": 1000000, "typed_roundtrip": 20000, "voxel0_is_origin_after_origin_change": 1000, "sibling_images": 3000, "callers_containers_overwritten": 1000, "integer_index_types_agree": 20000},
+    "quick": {"contract:coordinate": 5000, "contract:voxel": 5000, "inverse_exact": 100000, "typed_roundtrip": 2000, "voxel0_is_origin_after_origin_change": 100, "sibling_images": 300, "callers_containers_overwritten": 100, "integer_index_types_agree": 2000, "large_batches": 8},
+    "thorough": {"contract:coordinate": 50000, "contract:voxel": 50000, "inverse_exact": 1000000, "typed_roundtrip": 20000, "voxel0_is_origin_after_origin_change": 1000, "sibling_images": 3000, "callers_containers_overwritten": 1000, "integer_index_types_agree": 20000, "large_batches": 8},
 }
 OFFSETS = [1e-6, 0.25, 0.5, 1 - 1e-6]
 
@@ -280,6 +280,20 @@ def run_shard(spec, R):
                 judge_inverse(R, meta, spo, kept.coordinatesystem.voxel(spo), "inverse_after_callers_containers_overwritten")
                 judge_forward(R, meta, svo, kept_cs.coordinate(svo), "forward_after_callers_containers_overwritten")
                 R.count("callers_containers_overwritten")
+
+        # ---- one large batch (more than 2**17 points) per shard: every point of a batch is converted, wherever it sits
+        # in the batch; forward by the table, inverse by agreement with the same points handed over in small batches
+        if n == 0:
+            nbig = 2**17 + 77
+            cols = [rng.integers(-2, shape[d] + 2, size=nbig) for d in range(dim)]
+            vbig = np.stack(cols, axis=1).astype(int)
+            judge_forward(R, meta, vbig, cs.coordinate(vbig), "forward_large_batch")
+            pbig = CO.coordinate(dim, shape, dims, origin, vbig + 0.5)
+            big_back = np.asarray(cs.voxel(pbig))
+            small_back = np.concatenate([np.asarray(cs.voxel(pbig[i : i + 4096])) for i in range(0, nbig, 4096)], axis=0)
+            R.check(big_back.shape == small_back.shape and np.array_equal(big_back, small_back) and np.array_equal(big_back, vbig), "large_batch_equals_small_batches",
+                    lambda: {**case, "points": nbig, "first_bad_row": int(np.argwhere((big_back != vbig).any(axis=1))[0][0]) if big_back.shape == vbig.shape and (big_back != vbig).any() else None})
+            R.count("large_batches")
 
         # ---- forward map: every voxel + halo, batch and single, raw and typed
         halo = 2
